@@ -95,3 +95,19 @@ package model
 //@   ensures {C16,C07,C02} r == assignText(box(c))
 //@ func (SliceTypecastAssignment).RetError(c) (r)
 //@   ensures {C07} r == false && r == assignErr(box(c))
+
+// ---- enumerations (C09, C08) ---------------------------------------------------------------------------------
+
+//@ global DstVarStyleValues: len(DstVarStyleValues) == 2 && DstVarStyleValues[0] == DstVarReturn && DstVarStyleValues[1] == DstVarArg
+//@ global MatchRuleValues: len(MatchRuleValues) == 3 && MatchRuleValues[0] == MatchRuleName && MatchRuleValues[1] == MatchRuleTag && MatchRuleValues[2] == MatchRuleNone
+//@
+//@ func (DstVarStyle).String(s) (r)
+//@   ensures r == string(s)
+//@ func (MatchRule).String(s) (r)
+//@   ensures r == string(s)
+//@ func NewDstVarStyleFromValue(v) (r, ok)
+//@   ensures {C09,C08} ok == (v == "return" || v == "arg") && r == cond(ok, DstVarStyle(v), DstVarStyle(""))
+//@   loop 1 invariant $k <= len(DstVarStyleValues) && forall(i, 0, $k, string(DstVarStyleValues[i]) != v)
+//@ func NewMatchRuleFromValue(v) (r, ok)
+//@   ensures {C09,C04} ok == (v == "name" || v == "tag" || v == "none") && r == cond(ok, MatchRule(v), MatchRule(""))
+//@   loop 1 invariant $k <= len(MatchRuleValues) && forall(i, 0, $k, string(MatchRuleValues[i]) != v)
